@@ -1102,20 +1102,22 @@ func ruleRcCheck(c *Ctx, rule string) {
 		name := FnName(fn)
 		c.Analysed(name)
 		fi := ComputeFacts(fn)
-		ok := false
-		for _, r := range returnsOf(fn) {
-			if classifyErr(fi, r.Block(), r.Results[1], 0) == errNonNil && fi.HoldsWhere(r.Block(), func(f Fact) bool {
+		// every path to a successful return takes an edge that establishes "the two new counts are equal"
+		equalEdge := func(from, to *ssa.BasicBlock) bool {
+			for f := range fi.edgeFacts(from, to) {
 				bo, isB := f.V.(*ssa.BinOp)
 				if !isB || f.Kind != "true" {
-					return false
+					continue
 				}
 				_, xe := bo.X.(*ssa.Extract)
 				_, ye := bo.Y.(*ssa.Extract)
-				return xe && ye && ((bo.Op == token.NEQ && f.Pol) || (bo.Op == token.EQL && !f.Pol))
-			}) {
-				ok = true
+				if xe && ye && ((bo.Op == token.EQL && f.Pol) || (bo.Op == token.NEQ && !f.Pol)) {
+					return true
+				}
 			}
+			return false
 		}
+		ok := noPathAvoidingSuccess(fn, fi, nil, equalEdge)
 		c.Check(ok, rule, name, p.Pos(fn.Pos()), "the two sides' new counts are compared and a mismatch is an error", "a count mismatch between the two sides is not detected")
 	}
 	c.Floor(rule, 2)
@@ -1353,7 +1355,7 @@ func ruleDeleteOrch(c *Ctx, rule string) {
 		} else {
 			for b := range l.Blocks {
 				for _, s := range b.Succs {
-					if !l.Blocks[s] && b != l.Header && !leadsOnlyToFailure(fi, s, 0, map[*ssa.BasicBlock]bool{}) {
+					if !l.Blocks[s] && b != l.Header && !edgeLeadsOnlyToFailure(fi, b, s, 0) {
 						ok, why = false, "the child-store loop can be left early without an error"
 					}
 				}
